@@ -619,7 +619,7 @@ def rodrigues(w, theta=None):
 
     """
     w = base.getvector(w)
-    if base.iszerovec(w):
+    if base.iszerovec(w, tol=100):  # same threshold as unitvec_norm, which returns None below it
         # for a zero so(n) return unit matrix, theta not relevant
         if len(w) == 1:
             return np.eye(2)
